@@ -113,3 +113,100 @@ def normalise_module(module_name: str, tree: ast.Module) -> dict[str, dict[str, 
                 n.name = ren[n.name]
         done[qual] = ren
     return done
+
+
+# ------------------------------------------------------------------ functools.partial
+
+def _partial_names(tree: ast.Module) -> set[str]:
+    """spellings under which functools.partial is visible in this module"""
+    out: set[str] = set()
+    for st in tree.body:
+        if isinstance(st, ast.Import):
+            for a in st.names:
+                if a.name == "functools":
+                    out.add(f"{a.asname or 'functools'}.partial")
+        elif isinstance(st, ast.ImportFrom) and st.module == "functools" and st.level == 0:
+            for a in st.names:
+                if a.name == "partial":
+                    out.add(a.asname or "partial")
+    return out
+
+
+def _own_nodes(fn: ast.AST):
+    """nodes of a function body, nested scopes included (a nested def may read the partial too)"""
+    for st in getattr(fn, "body", []):
+        yield from ast.walk(st)
+
+
+def desugar_partials(tree: ast.Module) -> int:
+    """`g = functools.partial(f, a, k=v)` ... `g(x, k2=w)`  ==>  `f(a, x, k=v, k2=w)`.
+
+    Rewritten in memory only when it is an identity on behaviour: `g` is bound exactly once in the function and is
+    used only as the callee of direct calls; `f` is a name / dotted name and every captured argument a constant or a
+    name whose every binding completes before the partial is created (all its stores lie in top-level statements of the
+    function that precede the one creating the partial), so the value captured at creation is the value a read at the
+    call would give.  A keyword given at the call overrides the captured one, as partial does.  Anything else is left
+    as written."""
+    import copy
+
+    pnames = _partial_names(tree)
+    if not pnames:
+        return 0
+    count = 0
+    for fn in [n for n in ast.walk(tree) if isinstance(n, (ast.FunctionDef, ast.AsyncFunctionDef))]:
+        own_params = set(fn.args.args + fn.args.kwonlyargs + fn.args.posonlyargs)
+        stores: dict[str, list[int]] = {}  # name -> indices of the top-level statements that (re)bind it; -1 = unknowable
+        top_of: dict[int, int] = {}
+        nodes: list[ast.AST] = []
+        for idx, top in enumerate(fn.body):
+            for n in ast.walk(top):
+                nodes.append(n)
+                top_of[id(n)] = idx
+                if isinstance(n, ast.Name) and isinstance(n.ctx, (ast.Store, ast.Del)):
+                    stores.setdefault(n.id, []).append(idx)
+                elif isinstance(n, (ast.FunctionDef, ast.AsyncFunctionDef, ast.ClassDef)):
+                    stores.setdefault(n.name, []).append(idx)
+                elif isinstance(n, ast.arg) and n not in own_params:
+                    stores.setdefault(n.arg, []).append(-1)  # a nested function's parameter shadows the name
+                elif isinstance(n, (ast.Global, ast.Nonlocal)):
+                    for nm in n.names:
+                        stores.setdefault(nm, []).append(-1)
+        for st in nodes:
+            if not (isinstance(st, ast.Assign) and len(st.targets) == 1 and isinstance(st.targets[0], ast.Name)):
+                continue
+            g, call = st.targets[0].id, st.value
+            if not (isinstance(call, ast.Call) and ast.unparse(call.func) in pnames and call.args) or len(stores.get(g, [])) != 1:
+                continue
+            here = top_of[id(st)]
+            f, pargs, pkws = call.args[0], call.args[1:], call.keywords
+
+            def settled(name: str) -> bool:
+                return all(0 <= i < here for i in stores.get(name, []))
+
+            def stable(e: ast.expr) -> bool:
+                return isinstance(e, ast.Constant) or (isinstance(e, ast.Name) and settled(e.id))
+
+            root = f
+            while isinstance(root, ast.Attribute):
+                root = root.value
+            if not (isinstance(root, ast.Name) and settled(root.id)):
+                continue
+            if not all(stable(a) for a in pargs) or not all(k.arg is not None and stable(k.value) for k in pkws):
+                continue
+            uses = [n for n in nodes if isinstance(n, ast.Name) and n.id == g and isinstance(n.ctx, ast.Load)]
+            calls = [n for n in nodes if isinstance(n, ast.Call) and isinstance(n.func, ast.Name) and n.func.id == g]
+            if not calls or len(uses) != len(calls):
+                continue  # escapes (returned, stored, passed on): keep as written
+            if any(isinstance(a, ast.Starred) for c in calls for a in c.args) or any(k.arg is None for c in calls for k in c.keywords):
+                continue
+            for c in calls:
+                given = {k.arg for k in c.keywords}
+                c.func = ast.copy_location(copy.deepcopy(f), c.func)
+                c.args = [ast.copy_location(copy.deepcopy(a), c) for a in pargs] + c.args
+                c.keywords = [ast.copy_location(copy.deepcopy(k), c) for k in pkws if k.arg not in given] + c.keywords
+                for sub in ast.walk(c):
+                    if not hasattr(sub, "lineno") and isinstance(sub, (ast.expr, ast.keyword)):
+                        ast.copy_location(sub, c)
+            st.value = ast.copy_location(ast.Constant(value=None), call)  # the partial object itself is now dead
+            count += 1
+    return count
